@@ -1120,12 +1120,12 @@ class patched:
 # attribution of a deviation to a known finding: does it disappear under exactly that finding's minimal fix?
 # ---------------------------------------------------------------------------------------------
 
-FINDING_OF_PATCH = [
-    (("fix-unique-parent-variant",), "unique-parent-reuse-ignores-shared-vm-variant"),
-    (("fix-shadowed-test_object",), "shadowed-test_object"),
-    (("fix-objects-of-later-workers",), "first-worker-restricts-vm-objects"),
-    (("fix-shadowed-test_object", "fix-objects-of-later-workers"), "shadowed-test_object+first-worker-restricts-vm-objects"),
-]
+_FIX = {"fix-unique-parent-variant": "unique-parent-reuse-ignores-shared-vm-variant",
+        "fix-shadowed-test_object": "shadowed-test_object",
+        "fix-objects-of-later-workers": "first-worker-restricts-vm-objects"}
+# single fixes first, then pairs, then all three: an input may exhibit several findings at once
+FINDING_OF_PATCH = [(combo, "+".join(_FIX[c] for c in combo))
+                    for k in (1, 2, 3) for combo in __import__("itertools").combinations(list(_FIX), k)]
 
 
 def run_attributed(ctx, case, run_one, double_clone_key="double-clone"):
